@@ -213,21 +213,21 @@ theorem sliceToSlice_reads (lhs rhs : Node) (s : Stmt) (h : ctx.sliceToSlice lhs
     · cases h
 
 /-- a candidate's statement reads the candidate (and, in a nested block, what the nested call reads) -/
-theorem tryCand_rooted (rec : Node → Node → Outcome (List Stmt))
-    (hrec : ∀ l' r' body, rec l' r' = .ok body → RootedIn [r'.rootOf] (readsList body))
+theorem tryCand_rooted (A : List Node) (rec : Node → Node → Outcome (List Stmt))
+    (hrec : ∀ l' r' body, rec l' r' = .ok body → RootedIn (r'.rootOf :: A) (readsList body))
     (lhs rhsStruct cand : Node) (warns w' : List String) (s : Stmt)
-    (h : ctx.tryCand rec lhs rhsStruct warns cand = .ok (some s, w')) : RootedIn [cand.rootOf] (reads s) := by
+    (h : ctx.tryCand rec lhs rhsStruct warns cand = .ok (some s, w')) : RootedIn (cand.rootOf :: A) (reads s) := by
   obtain ⟨_, _, hfrom⟩ := C04.tryCand_some ctx rec lhs rhsStruct cand warns w' s h
   cases hfrom with
   | slice _ _ hsl =>
     rw [sliceToSlice_reads ctx _ _ _ hsl]
     intro n hn; simp only [List.mem_singleton] at hn; subst hn; simp
-  | direct hc =>
+  | direct hc _ =>
     intro n hn
     simp only [reads, List.mem_singleton] at hn
     subst hn
     rw [castNode_root ctx _ _ _ _ hc]; simp
-  | nested _ _ _ hr _ =>
+  | nested _ _ _ _ hr _ =>
     intro n hn
     simp only [reads, List.mem_cons] at hn
     rcases hn with rfl | hn
@@ -249,23 +249,23 @@ theorem candidates_root (rhsStruct : Node) : ∀ c ∈ ctx.candidates rhsStruct,
     · rfl
   · cases hc
 
-theorem fieldDefault_rooted (rec : Node → Node → Outcome (List Stmt))
-    (hrec : ∀ l' r' body, rec l' r' = .ok body → RootedIn [r'.rootOf] (readsList body))
+theorem fieldDefault_rooted (A : List Node) (rec : Node → Node → Outcome (List Stmt))
+    (hrec : ∀ l' r' body, rec l' r' = .ok body → RootedIn (r'.rootOf :: A) (readsList body))
     (lhs rhsStruct : Node) (s : Stmt) (h : ctx.fieldDefault rec lhs rhsStruct = .ok s) :
-    RootedIn [rhsStruct.rootOf] (reads s) := by
+    RootedIn (rhsStruct.rootOf :: A) (reads s) := by
   rcases C04.fieldDefault_spec ctx rec lhs rhsStruct s h with ⟨⟨w, rfl⟩, _⟩ | ⟨pre, c, post, w, w', hsplit, _, hc⟩
   · intro n hn; cases hn
   · have hmem : c ∈ ctx.candidates rhsStruct := by rw [hsplit]; simp
-    have := tryCand_rooted ctx rec hrec lhs rhsStruct c w w' s hc
+    have := tryCand_rooted ctx A rec hrec lhs rhsStruct c w w' s hc
     rw [candidates_root ctx rhsStruct c hmem] at this
     exact this
 
 theorem rootedIn_mono {S T : List Node} {ns : List Node} (hST : ∀ x ∈ S, x ∈ T) (h : RootedIn S ns) : RootedIn T ns :=
   fun n hn => hST _ (h n hn)
 
-theorem matchField_rooted (rec : Node → Node → Outcome (List Stmt))
-    (hrec : ∀ l' r' body, rec l' r' = .ok body → RootedIn [r'.rootOf] (readsList body))
-    (lhs rhs : Node) (args : List Node) (s : Stmt) (h : ctx.matchField rec lhs rhs args = .ok s) :
+theorem matchField_rooted (rec : Node → Node → Outcome (List Stmt)) (args : List Node)
+    (hrec : ∀ l' r' body, rec l' r' = .ok body → RootedIn (r'.rootOf :: args.map Node.rootOf) (readsList body))
+    (lhs rhs : Node) (s : Stmt) (h : ctx.matchField rec lhs rhs args = .ok s) :
     RootedIn (rhs.rootOf :: args.map Node.rootOf) (reads s) := by
   have hsub : ∀ x ∈ [rhs.rootOf], x ∈ rhs.rootOf :: args.map Node.rootOf := by
     intro x hx; simp only [List.mem_singleton] at hx; subst hx; simp
@@ -295,16 +295,16 @@ theorem matchField_rooted (rec : Node → Node → Outcome (List Stmt))
             obtain ⟨a, ha, he⟩ := resolveTemplatedExpr_root ctx _ _ _ hn
             rw [he]
             rcases List.mem_cons.mp ha with rfl | ha
-            · simp
+            · rw [rootOf_rootOf]; simp
             · exact List.mem_cons_of_mem _ (List.mem_map_of_mem ha)
           · split at h
             · cases h
               intro n hn; cases hn
-            · exact rootedIn_mono hsub (fieldDefault_rooted ctx rec hrec _ _ _ h)
+            · exact fieldDefault_rooted ctx _ rec hrec _ _ _ h
 
-theorem go_rooted (rec : Node → Node → Outcome (List Stmt))
-    (hrec : ∀ l' r' body, rec l' r' = .ok body → RootedIn [r'.rootOf] (readsList body))
-    (lhsStruct rhsStruct : Node) (args : List Node) :
+theorem go_rooted (rec : Node → Node → Outcome (List Stmt)) (args : List Node)
+    (hrec : ∀ l' r' body, rec l' r' = .ok body → RootedIn (r'.rootOf :: args.map Node.rootOf) (readsList body))
+    (lhsStruct rhsStruct : Node) :
     ∀ (fs : List Field) (ss : List Stmt),
       BCtx.structToStructWith.go ctx rec lhsStruct rhsStruct args fs = .ok ss →
       RootedIn (rhsStruct.rootOf :: args.map Node.rootOf) (readsList ss) := by
@@ -331,7 +331,7 @@ theorem go_rooted (rec : Node → Node → Outcome (List Stmt))
         intro n hn
         simp only [readsList, List.mem_append] at hn
         rcases hn with hn | hn
-        · exact matchField_rooted ctx rec hrec _ _ _ _ hm n hn
+        · exact matchField_rooted ctx rec args hrec _ _ _ hm n hn
         · exact ih ss' hr n hn
 
 /-- **T2.1 (reads only the sources).**  Every node read by a builder result is rooted in the source
@@ -345,9 +345,8 @@ theorem structToStruct_rooted : ∀ (fuel : Nat) (l r : Node) (args : List Node)
     intro l r args ss h
     simp only [BCtx.structToStruct] at h
     unfold BCtx.structToStructWith at h
-    refine go_rooted ctx _ ?_ l r args _ ss h
+    refine go_rooted ctx _ args ?_ l r _ ss h
     intro l' r' body hb
-    have := ih l' r' [] body hb
-    simpa using this
+    exact ih l' r' args body hb
 
 end Convergen.Props.Rooted
